@@ -20,7 +20,10 @@ package index
 
 // Lookup: the newest layer that mentions the key decides (mutable layer first, then the committed
 // layers from the most recent down to the base), and only if no layer mentions it the stored btree
+// ovLook names the result of the layered lookup for other contracts (db19's duplicate key check)
+//@ spec ovLook(ov *Overlay, key string) uint64
 //@ func (ov *Overlay) Lookup(key) (r)
+//@   defines r == ovLook(ov, key)
 //@   requires ov != nil && (ov.mut != nil ==> ixWf(ov.mut)) && forall k :: 0 <= k && k < len(ov.layers) ==> ov.layers[k] != nil && ixWf(ov.layers[k])
 //@   ensures! own_layer: ov.mut != nil && ixLook(ov.mut, key) != 0 ==> r == entryVal(ixLook(ov.mut, key))
 //@   ensures! newest_layer: forall i :: 0 <= i && i < len(ov.layers) && noneAbove(ov, i, key) && ixLook(ov.layers[i], key) != 0 ==> r == entryVal(ixLook(ov.layers[i], key))
